@@ -21,23 +21,23 @@ import (
 )
 
 type HarnessSpec struct {
-	Name      string              `json:"name"`
-	Pkg       string              `json:"pkg"`
-	Dir       string              `json:"dir"`
-	Entry     string              `json:"entry"`
-	Grid      map[string][][]int  `json:"grid"`
-	GridProduct map[string][][]int `json:"grid_product"`
-	Unwind    int                 `json:"unwind"`
-	MaxFork   int                 `json:"max_fork"`
-	MaxSteps  int                 `json:"max_steps"`
-	MaxPaths  int                 `json:"max_paths"`
-	Redirects map[string]string   `json:"redirects"`
-	Init      []string            `json:"init"`
-	Bounds    map[string]string   `json:"bounds"`
-	BudgetS   map[string]int      `json:"budget_s"`
-	Covers    []string            `json:"covers"` // cover labels that must be reached (vacuity)
-	Tiers     []string            `json:"tiers"`  // if set: run only in these tiers
-	SolverTimeoutS int            `json:"solver_timeout_s"`
+	Name           string             `json:"name"`
+	Pkg            string             `json:"pkg"`
+	Dir            string             `json:"dir"`
+	Entry          string             `json:"entry"`
+	Grid           map[string][][]int `json:"grid"`
+	GridProduct    map[string][][]int `json:"grid_product"`
+	Unwind         int                `json:"unwind"`
+	MaxFork        int                `json:"max_fork"`
+	MaxSteps       int                `json:"max_steps"`
+	MaxPaths       int                `json:"max_paths"`
+	Redirects      map[string]string  `json:"redirects"`
+	Init           []string           `json:"init"`
+	Bounds         map[string]string  `json:"bounds"`
+	BudgetS        map[string]int     `json:"budget_s"`
+	Covers         []string           `json:"covers"` // cover labels that must be reached (vacuity)
+	Tiers          []string           `json:"tiers"`  // if set: run only in these tiers
+	SolverTimeoutS int                `json:"solver_timeout_s"`
 }
 
 type Spec struct {
@@ -847,41 +847,45 @@ func cmdRun(args []string) int {
 		inconclusive = append(inconclusive, "native run failed: "+firstLines(nativeErr, 6))
 	}
 	cov := map[string]interface{}{
-		"explanation": spec.Explanation + " Decided by bounded symbolic execution of the repository's Go SSA (regenerated from the working tree on this run) with SMT queries; every obligation is pc => assertion for one explored path; a sat answer is replayed natively before it is reported.",
-		"functions_encoded":       repoFns,
-		"other_functions_executed": otherFns,
-		"models_used":             mdl,
-		"harnesses":               harnessEv,
-		"obligations":             obligations,
-		"discharged":              discharged,
+		"explanation":                spec.Explanation + " Decided by bounded symbolic execution of the repository's Go SSA (regenerated from the working tree on this run) with SMT queries; every obligation is pc => assertion for one explored path; a sat answer is replayed natively before it is reported.",
+		"functions_encoded":          repoFns,
+		"other_functions_executed":   otherFns,
+		"models_used":                mdl,
+		"harnesses":                  harnessEv,
+		"obligations":                obligations,
+		"discharged":                 discharged,
 		"closed_by_constant_folding": trivial,
-		"solver_unknown":          unknown,
-		"evaluations":             paths,
-		"distinct_nontrivial":     distinct,
-		"rule":                    "evaluations = symbolic paths explored (each stands for all inputs satisfying its path condition); distinct_nontrivial = distinct obligation terms that were not closed by constant folding and reached the solver",
-		"samples":                 samplesEv,
-		"obligation_table":        oblList,
-		"queries":                 tot.Queries,
-		"query_cache_hits":        tot.CacheHits,
-		"model_reuse":             tot.ModelReuse,
-		"solver_results":          map[string]int{"sat": tot.Sat, "unsat": tot.Unsat, "unknown": tot.Unknown, "errors": tot.Errors, "portfolio_queries": tot.Portfolio, "restarts": tot.Restarts},
-		"solver_time_s":           tot.TimeS,
-		"backend_wins":            tot.BackendWins,
-		"max_query_ms":            tot.MaxQueryMs,
-		"vacuous_covers":          vacuous,
-		"inconclusive":            inconclusive,
-		"translator_validation":   map[string]interface{}{"vectors": tvRun, "agreed": tvAgreed, "mismatches": tvMismatch},
-		"unconfirmed":             unconfirmed,
-		"known_findings_hit":      knownHits,
-		"load_s":                  loadS,
-		"outside":                 spec.Outside,
-		"exhaustive":              false,
+		"solver_unknown":             unknown,
+		"evaluations":                paths,
+		"distinct_nontrivial":        distinct,
+		"rule":                       "evaluations = symbolic paths explored (each stands for all inputs satisfying its path condition); distinct_nontrivial = distinct obligation terms that were not closed by constant folding and reached the solver",
+		"samples":                    samplesEv,
+		"obligation_table":           oblList,
+		"queries":                    tot.Queries,
+		"query_cache_hits":           tot.CacheHits,
+		"model_reuse":                tot.ModelReuse,
+		"solver_results":             map[string]int{"sat": tot.Sat, "unsat": tot.Unsat, "unknown": tot.Unknown, "errors": tot.Errors, "portfolio_queries": tot.Portfolio, "restarts": tot.Restarts},
+		"solver_time_s":              tot.TimeS,
+		"backend_wins":               tot.BackendWins,
+		"max_query_ms":               tot.MaxQueryMs,
+		"vacuous_covers":             vacuous,
+		"inconclusive":               inconclusive,
+		"translator_validation":      map[string]interface{}{"vectors": tvRun, "agreed": tvAgreed, "mismatches": tvMismatch},
+		"unconfirmed":                unconfirmed,
+		"known_findings_hit":         knownHits,
+		"load_s":                     loadS,
+		"outside":                    spec.Outside,
+		"exhaustive":                 false,
 	}
 	ev := map[string]interface{}{
 		"property_id": id, "tier": *tier, "seed": seed, "level": "other", "coverage": cov,
 		"assumptions": spec.Assumptions, "wall_s": time.Since(t0).Seconds(), "violations": violations,
 	}
 	writeEvidence(evPath, ev)
+	if *evidenceOut == "" && *only == "" {
+		// keep the last run of each tier next to the file the manifest names
+		writeEvidence(filepath.Join(verifRoot, "evidence", "by-tier", id+"."+*tier+".json"), ev)
+	}
 
 	for _, l := range outLines {
 		fmt.Println(l)
